@@ -50,15 +50,16 @@ theorem cinv_rlockC_cons {s : CSh} {pre post : List CTh} {t : CTh} (h : CInv s (
     simp only [fDm, startInner]
     exact dm_release hk
   · intro y k hk
-    rw [regc_outside hni] at hk
+    have hun : unrg t = [] := by simp [unrg, hc]
+    rw [regc_outside hni, hun] at hk
     have hcn := hspec.cnt y
     show (regAll s xs).1.cnt y = _
     rw [hcn, hk, ← hmap]
-    simp only [regc, acq, isInner, startInner, restEnts, restPairs, List.count_cons]
+    simp only [regc, acq, isInner, startInner, restEnts, restPairs, unrg, List.count_cons]
     by_cases hy : x = y <;> simp [hy] <;> omega
   · intro u _ htl _
     exact tl_mono htl hspec.mono
-  · refine ⟨?_, ?_, ?_, ?_, hti.so, ?_⟩
+  · refine ⟨?_, ?_, ?_, ?_, hti.so, ?_, by simp [unrg, startInner]⟩
     · intro hi; simp [isInner, startInner] at hi
     · simp [KOk, startInner]
     · exact lk_start_acq hni hidle hti.lk .rlock (Or.inr rfl) x _ _ (by simp [pend, startInner]) hz
@@ -81,7 +82,7 @@ theorem cinv_rlockC_nil {s : CSh} {pre post : List CTh} {t : CTh} (h : CInv s (p
   simp only [SI, hc, pushAll] at hsi
   have := cinv_ctl h .idle t.script false hni (by simp [isInner])
     (by intro k hk; simp only [fDm, hc] at hk; simp only [fDm]; exact dm_release hk)
-    (by simp only [SI]; exact hsi.2)
+    (by simp only [SI]; exact hsi.2) (by simp [unrg, hc])
   simpa [regAll] using this
 
 theorem bonusR_start (t0 : CTh) (op : Op) (x o0 : Nat) (k : Kont) (o : Nat) :
@@ -92,7 +93,7 @@ theorem bonusW_start (t0 : CTh) (op : Op) (x o0 : Nat) (k : Kont) (o : Nat) :
     bonusW (startInner t0 op x o0 k) o = ((o0 == o) && (op == .lock)) := by
   simp [bonusW, inA, isInner, startInner]
 
-/-! ### Unlock: unregister, then enter `StarvingMutex.Unlock` -/
+/-! ### Unlock: look the mutex up, then enter `StarvingMutex.Unlock` (the unregistration comes last) -/
 
 theorem cR_erase_w {t : CTh} {x : Nat} (hm : (x, Mode.w) ∈ t.held) (o : Nat) :
     cR { t with held := t.held.erase (x, .w) } o = cR t o := by
@@ -108,9 +109,9 @@ theorem cW_erase_w {t : CTh} {x : Nat} (hm : (x, Mode.w) ∈ t.held) (o : Nat) :
 
 theorem cinv_unlockC {s : CSh} {pre post : List CTh} {t : CTh} (h : CInv s (pre ++ t :: post))
     {x : Nat} (hc : t.ctl = .unlockC x) :
-    ∃ s1 o, unregOne s x = some (s1, o) ∧
-      CInv { s1 with dm := false }
-        (pre ++ startInner { t with held := t.held.erase (x, .w) } .unlock x o .done :: post) := by
+    ∃ o, s.ent x = some o ∧
+      CInv { s with dm := false }
+        (pre ++ startInner { t with held := t.held.erase (x, .w) } .unlock x o (.ul x) :: post) := by
   have hti := h.th t (by simp)
   have hni : isInner t = false := by simp [isInner, hc]
   have hidle := hti.ci hni
@@ -118,8 +119,7 @@ theorem cinv_unlockC {s : CSh} {pre post : List CTh} {t : CTh} (h : CInv s (pre 
   simp only [SI, hc] at hsi
   obtain ⟨hmem, hok⟩ := hsi
   have hent : s.ent x = some (t.hobj x) := hti.tl.t1 (x, .w) hmem
-  obtain ⟨s1, e1, u1⟩ := unregOne_spec s x (t.hobj x) h.rw hent
-  refine ⟨s1, t.hobj x, e1, ?_⟩
+  refine ⟨t.hobj x, hent, ?_⟩
   let t0 : CTh := { t with held := t.held.erase (x, .w) }
   have hni0 : isInner t0 = false := hni
   have hv := (lk_outside_iff hni hidle).mp hti.lk
@@ -133,17 +133,12 @@ theorem cinv_unlockC {s : CSh} {pre post : List CTh} {t : CTh} (h : CInv s (pre 
   have hcRx : cR t (t.hobj x) = 0 := by rw [← cR_erase_w hmem]; exact hz0.1
   have hcWx : 0 < cW t (t.hobj x) := by
     have := cW_erase_w hmem (t.hobj x); simp at this; omega
-  have hentne : ∀ y, y ≠ x → s1.ent y = s.ent y := by
-    intro y hy; rw [u1.ent]; simp [hy]
-  refine cinv_assemble h ?_ ?_ ?_ ⟨u1.rw.z, u1.rw.lt, u1.rw.inj⟩ ?_ ?_
+  refine cinv_assemble h ?_ ?_ ?_ ⟨h.rw.z, h.rw.lt, h.rw.inj⟩
+    (fun u _ htl _ => ⟨htl.t1, htl.t2, htl.t3⟩) ?_
   · intro o' hw
-    have : ({ s1 with dm := false } : CSh).heap o' = s.heap o' := by
-      show s1.heap o' = s.heap o'
-      rw [u1.heap]
-    rw [this]
     have hp : proj o' t = proj o' t0 := rfl
     rw [hp] at hw
-    apply obj_start (t := t0) hidle .unlock x _ .done o' _ hw
+    apply obj_start (t := t0) hidle .unlock x _ (.ul x) o' _ hw
     show vinv ⟨start .unlock, t.rd (t.hobj x), t.wr (t.hobj x)⟩
     rw [(hv _).1, (hv _).2, hcRx]
     simp [vinv, start, hcWx]
@@ -152,37 +147,22 @@ theorem cinv_unlockC {s : CSh} {pre post : List CTh} {t : CTh} (h : CInv s (pre 
     simp only [fDm, startInner]
     exact dm_release hk
   · intro y k hk
-    rw [regc_outside hni] at hk
-    show s1.cnt y = _
-    rw [u1.cnt, hk]
+    have hun : unrg t = [] := by simp [unrg, hc]
+    rw [regc_outside hni, hun] at hk
+    show s.cnt y = _
+    rw [hk]
     have := countP_erase_add (fun h : Nat × Mode => h.1 == y) t.held (x, .w) hmem
-    simp only [regc, acq, isInner, startInner, restEnts, restPairs, List.count_cons, List.count_nil]
+    simp only [regc, acq, isInner, startInner, restEnts, restPairs, unrg, List.count_cons, List.count_nil]
     by_cases hy : x = y <;> simp [hy] at this ⊢ <;> omega
-  · intro u _ htl hb
-    apply tl_of_unreferenced htl
-    intro y
-    by_cases hy : y = x ∧ s.cnt y = 1
-    · left
-      obtain ⟨rfl, hc1⟩ := hy
-      have h1 := hb y
-      have : 0 < regc y t := by
-        rw [regc_outside hni]
-        exact List.countP_pos_iff.mpr ⟨(y, .w), hmem, by simp⟩
-      omega
-    · right
-      show s1.ent y = s.ent y
-      rw [u1.ent]
-      simp only [List.mem_singleton]
-      simp [hy]
-  · refine ⟨?_, ?_, ?_, ?_, hti.so.erase _, ?_⟩
+  · refine ⟨?_, ?_, ?_, ?_, hti.so.erase _, ?_, by simp [unrg, startInner]⟩
     · intro hi; simp [isInner, startInner] at hi
     · simp [KOk, startInner]
     · -- LK
-      have hin : ∀ o, inA (startInner t0 .unlock x (t.hobj x) .done) o = (t.hobj x == o) := by
+      have hin : ∀ o, inA (startInner t0 .unlock x (t.hobj x) (.ul x)) o = (t.hobj x == o) := by
         intro o; simp [inA, isInner, startInner]
-      have hpend : pend (startInner t0 .unlock x (t.hobj x) .done) = [] := by simp [pend, startInner]
-      have hcR : ∀ o, cR (startInner t0 .unlock x (t.hobj x) .done) o = cR t o := fun o => cR_erase_w hmem o
-      have hcW : ∀ o, cW (startInner t0 .unlock x (t.hobj x) .done) o = cW t0 o := fun _ => rfl
+      have hpend : pend (startInner t0 .unlock x (t.hobj x) (.ul x)) = [] := by simp [pend, startInner]
+      have hcR : ∀ o, cR (startInner t0 .unlock x (t.hobj x) (.ul x)) o = cR t o := fun o => cR_erase_w hmem o
+      have hcW : ∀ o, cW (startInner t0 .unlock x (t.hobj x) (.ul x)) o = cW t0 o := fun _ => rfl
       refine ⟨?_, ?_, ?_, ?_⟩
       · intro o
         rw [proj_startInner, hpend, hcR, hcW, bonusR_start, bonusW_start]
@@ -207,12 +187,120 @@ theorem cinv_unlockC {s : CSh} {pre post : List CTh} {t : CTh} (h : CInv s (pre 
     · simp only [SI, startInner]; exact hok
     · refine ⟨?_, ?_, ?_⟩
       · intro a ha
-        have ha' : a ∈ t.held := List.mem_of_mem_erase ha
-        have hne : a.1 ≠ x := hti.so.not_mem_erase hmem a ha
-        show s1.ent a.1 = some (t.hobj a.1)
-        rw [hentne _ hne]
-        exact hti.tl.t1 a ha'
+        exact hti.tl.t1 a (List.mem_of_mem_erase ha)
       · intro ha; simp [acq, startInner] at ha
       · intro p hp; simp [restPairs, startInner] at hp
+
+/-! ### the second critical section of `Unlock` / `RUnlock`: the unregistration -/
+
+/-- A goroutine that stays outside a method and gives up registrations `xs` (all of them still counted in `unrg`):
+what is needed of the new registry. -/
+theorem cinv_unreg_assemble {s s1 : CSh} {pre post : List CTh} {t : CTh} (h : CInv s (pre ++ t :: post))
+    {xs : List Nat} (hun : unrg t = xs) (hni : isInner t = false)
+    (hok : okD t.held t.script = true) (u1 : UnregSpec s xs s1)
+    (hdm : ∀ k : Nat, (if s.dm then 1 else 0) = k + fDm t → (if false then 1 else 0) = k + 0) :
+    CInv { s1 with dm := false } (pre ++ { t with ctl := .idle } :: post) := by
+  have hti := h.th t (by simp)
+  have hidle := hti.ci hni
+  have hni' : isInner { t with ctl := .idle } = false := by simp [isInner]
+  have hreg' : ∀ y, regc y { t with ctl := .idle } = t.held.countP (fun h => h.1 == y) := by
+    intro y; rw [regc_outside hni']; simp [unrg]
+  -- an entity that is dropped was registered by t only, through `unrg`
+  have hdrop : ∀ u : CTh, (∀ y, regc y u + xs.count y ≤ s.cnt y) → TL s u → TL { s1 with dm := false } u := by
+    intro u hb htl
+    apply tl_of_unreferenced htl
+    intro y
+    by_cases hy : y ∈ xs ∧ s.cnt y = 1
+    · left
+      have h1 := hb y
+      have : 0 < xs.count y := List.count_pos_iff.mpr hy.1
+      omega
+    · right
+      show s1.ent y = s.ent y
+      rw [u1.ent]
+      simp [hy]
+  have hcntt : ∀ y, s.cnt y = (sumL (regc y) pre + sumL (regc y) post) + regc y t := by
+    intro y
+    have := h.cnt y
+    simp only [sumL_mid] at this
+    omega
+  refine cinv_assemble h ?_ ?_ ?_ ⟨u1.rw.z, u1.rw.lt, u1.rw.inj⟩ ?_ ?_
+  · intro o' hw
+    have : ({ s1 with dm := false } : CSh).heap o' = s.heap o' := by
+      show s1.heap o' = s.heap o'
+      rw [u1.heap]
+    rw [this]
+    exact hw
+  · intro k hk
+    simp only [fDm]
+    exact hdm k hk
+  · intro y k hk
+    rw [regc_outside hni, hun] at hk
+    show s1.cnt y = _
+    rw [u1.cnt, hk, hreg']
+    omega
+  · intro u _ htl hb
+    apply hdrop u _ htl
+    intro y
+    have := hb y
+    rw [regc_outside hni, hun] at this
+    omega
+  · refine ⟨fun _ => hidle, by simp [KOk], ?_, by simp only [SI]; exact hok, hti.so, ?_, by simp [unrg]⟩
+    · rw [lk_outside_iff hni' hidle]
+      exact (lk_outside_iff hni hidle).mp hti.lk
+    · have o' := outside_of hni'
+      have ot := outside_of hni
+      have htl0 : TL s { t with ctl := .idle } := by
+        refine ⟨hti.tl.t1, ?_, ?_⟩
+        · intro ha; rw [o'.acq] at ha; cases ha
+        · intro p hp; rw [o'.rest] at hp; cases hp
+      apply hdrop _ _ htl0
+      intro y
+      have := hcntt y
+      rw [regc_outside hni, hun] at this
+      rw [hreg']
+      omega
+
+theorem ent_of_unrg {s : CSh} {pre post : List CTh} {t : CTh} (h : CInv s (pre ++ t :: post))
+    {x : Nat} (hx : x ∈ unrg t) : s.ent x ≠ none := by
+  intro he
+  have h0 := (h.rw.z x).mpr he
+  have := h.cnt x
+  simp only [sumL_mid] at this
+  have hp : 0 < (unrg t).count x := List.count_pos_iff.mpr hx
+  simp only [regc] at this
+  omega
+
+theorem cinv_unregC {s : CSh} {pre post : List CTh} {t : CTh} (h : CInv s (pre ++ t :: post))
+    {x : Nat} (hc : t.ctl = .unregC x) :
+    ∃ s1 o, unregOne s x = some (s1, o) ∧ CInv { s1 with dm := false } (pre ++ { t with ctl := .idle } :: post) := by
+  have hti := h.th t (by simp)
+  have hni : isInner t = false := by simp [isInner, hc]
+  have hun : unrg t = [x] := by simp [unrg, hc]
+  have hsi := hti.si
+  simp only [SI, hc] at hsi
+  cases he : s.ent x with
+  | none => exact absurd he (ent_of_unrg h (by rw [hun]; simp))
+  | some o =>
+    obtain ⟨s1, e1, u1⟩ := unregOne_spec s x o h.rw he
+    refine ⟨s1, o, e1, cinv_unreg_assemble h hun hni hsi u1 ?_⟩
+    intro k hk
+    simp only [fDm, hc] at hk
+    exact dm_release hk
+
+theorem cinv_runregC {s : CSh} {pre post : List CTh} {t : CTh} (h : CInv s (pre ++ t :: post))
+    {xs : List Nat} (hc : t.ctl = .runregC xs) :
+    ∃ s1 os, unregAll s xs = some (s1, os) ∧ CInv { s1 with dm := false } (pre ++ { t with ctl := .idle } :: post) := by
+  have hti := h.th t (by simp)
+  have hni : isInner t = false := by simp [isInner, hc]
+  have hun : unrg t = xs := by simp [unrg, hc]
+  have hsi := hti.si
+  simp only [SI, hc] at hsi
+  have hnd : xs.Nodup := by have := hti.nd; rwa [hun] at this
+  obtain ⟨s1, e1, u1⟩ := unregAll_spec xs s h.rw hnd (fun x hx => ent_of_unrg h (by rw [hun]; exact hx))
+  refine ⟨s1, _, e1, cinv_unreg_assemble h hun hni hsi u1 ?_⟩
+  intro k hk
+  simp only [fDm, hc] at hk
+  exact dm_release hk
 
 end Hive.SyncMutex.Comp
